@@ -55,6 +55,8 @@ func runScheduled(in input, withCard bool, t *tape.Tape) (o outcome, v *super.Vi
 	// a liveness bound far above what any terminating parse of this text needs
 	// (observed: fewer than 40 steps per input byte at the densest yield level)
 	s.MaxSteps = 20000 + 400*len(in.text)
+	s.AllWorkers = true
+	s.YieldBudget = s.MaxSteps / 2
 	s.Add(func() { o = doParse(in, nil, nil, withCard) })
 	var wg sync.WaitGroup
 	s.Run(func(body func()) {
